@@ -645,7 +645,8 @@ def rule_g(ctx: Context, R: Reporter, wrapper: FuncInfo, disp: FuncInfo):
             R.check("C13.g", "a pool created by the library is not cached for the life of the process", why is None, fi, st,
                     msg=f"{fi.short}: `{unparse(st)[:70]}` keeps the worker pool in {why}: its workers were forked with the module state of that moment and are reused by later "
                         f"batches, runs and samplers, so a pooled evaluation can differ from the serial one", key=f"pool-cached:{fi.short}")
-    R.floor("C13.g", "pool creation sites", n, 1)
+    n_calls = sum(1 for fi in ctx.prog.functions.values() for c in calls_in(fi.node) if dotted(c.func).split(".")[-1] in POOLS)
+    R.floor("C13.g", "pool creation calls", n_calls, 1)
 
 
 def run(ctx: Context, R: Reporter):
